@@ -328,7 +328,8 @@ def message_from_cache_entry(ctx):
     params = {a.arg for a in mu.node.args.args}
     used = {n.id for n in body_walk(mu.node) if isinstance(n, ast.Name) and isinstance(n.ctx, ast.Load)}
     consts = {n for n in used if n in mu.module.imports or n in mu.module.consts}
-    extra = used - params - consts - {'str'}
+    stored = {n.id for n in body_walk(mu.node) if isinstance(n, ast.Name) and isinstance(n.ctx, ast.Store)}      # locals computed from the arguments
+    extra = used - params - consts - {'str'} - stored
     ctx.check(not extra, f'{mu.qualname}:reads only the cache entry', mu.node,
               'message is a function of (modulename, cache entry) and protocol constants only',
               f'make_update depends on other state: {sorted(extra)}', mu)
@@ -468,8 +469,29 @@ def update_message_follows_the_error_state(ctx):
     ctx.analysed(mu)
     cfg = CFG(mu.node, m, mu.module)
     p = mu.node.args.args[1].arg
-    tests = [t for t in cfg.nodes if t.kind == 'test' and _truth_polarity(t.ast)[0] == f'{p}.readerror']
+    tests = [t for t in cfg.nodes if t.kind == 'test' and not isinstance(t.ast, ast.stmt) and _truth_polarity(resolved(t.ast, mu.node))[0] == f'{p}.readerror']
     rets = [n for n in body_walk(mu.node) if isinstance(n, ast.Return)]
+    if len(rets) == 1 and isinstance(rets[0].value, ast.Tuple) and len(rets[0].value.elts) == 3 and isinstance(rets[0].value.elts[0], ast.Name) \
+            and isinstance(rets[0].value.elts[2], ast.Name):
+        # one exit returning (action, specifier, report) with action and report bound per branch: each binding of the action, with the
+        # report bound next to it, is read as the triple of its branch
+        aname, rname = rets[0].value.elts[0].id, rets[0].value.elts[2].id
+        pseudo = []
+        for st in body_walk(mu.node):
+            if isinstance(st, ast.Assign) and len(st.targets) == 1 and isinstance(st.targets[0], ast.Name) and st.targets[0].id == aname:
+                block = next((lst for par in [getattr(st, 'parent', None)] for f_ in ('body', 'orelse') for lst in [getattr(par, f_, None)]
+                              if isinstance(lst, list) and st in lst), [])
+                data = next((x.value for x in block if isinstance(x, ast.Assign) and len(x.targets) == 1 and isinstance(x.targets[0], ast.Name)
+                             and x.targets[0].id == rname), None)
+                if data is not None:
+                    tup = ast.Tuple(elts=[st.value, resolved(rets[0].value.elts[1], mu.node), resolved(data, mu.node)], ctx=ast.Load())
+                    r2 = ast.Return(value=tup)
+                    ast.copy_location(r2, st)
+                    ast.fix_missing_locations(r2)
+                    r2._anchor = st
+                    pseudo.append(r2)
+        if len(pseudo) >= 2:
+            rets = pseudo
     if not tests or not rets:
         raise AnchorMissing('test of pobj.readerror / returns not found in make_update', violation=f'{mu.qualname}:error state selects the message kind')
     t = tests[0]
@@ -479,7 +501,7 @@ def update_message_follows_the_error_state(ctx):
     seen = {'error': 0, 'value': 0}
     for r in rets:
         v = r.value
-        ids = set(cfg.ids(r))
+        ids = set(cfg.ids(getattr(r, '_anchor', r)))
         if not (isinstance(v, ast.Tuple) and len(v.elts) == 3):
             ctx.bad(f'{mu.qualname}:returns a message triple', r, f'`return {src(v) if v is not None else ""}` is not an (action, specifier, data) triple', mu)
             continue
